@@ -141,3 +141,69 @@ func c15chosenRepresentatives(r *hk.Reporter, rng *hk.RNG) {
 	}
 	r.EvalN("representatives-with-chosen-internal-values", n)
 }
+
+// c15unitRepresentatives: representatives in which one coordinate (or a product of two) has a "recognisable" VALUE -
+// 1, 2, 3, -1, a = -3, b - of points that include the two points with x = 0. A shortcut that recognises a neutral
+// element, a fresh accumulator (0:1:0) or an affine operand by testing only SOME of its coordinates is wrong exactly on
+// such a representative of an ordinary point (probability 2^-256 under random scaling). Judged by the affine model.
+func c15unitRepresentatives(r *hk.Reporter, rng *hk.RNG) {
+	p := ref.SM2P
+	R := new(big.Int).Lsh(big.NewInt(1), 256)
+	vals := []*big.Int{big.NewInt(1), big.NewInt(2), big.NewInt(3), new(big.Int).Sub(p, big.NewInt(1)), new(big.Int).Sub(p, big.NewInt(3)), ref.SM2B}
+	var internals []*big.Int
+	for _, w := range vals {
+		internals = append(internals, new(big.Int).Mod(new(big.Int).Mul(w, R), p)) // value w
+	}
+	internals = append(internals, big.NewInt(1), big.NewInt(2)) // Montgomery residue 1, 2
+	y0 := ref.SqrtP(ref.SM2B)
+	pts := []ref.Pt{ref.G(), ref.BaseMulFast(big.NewInt(2)), ref.BaseMulFast(zvRandScalarI(rng))}
+	if y0 != nil {
+		pts = append(pts, ref.Pt{X: big.NewInt(0), Y: y0}, ref.Pt{X: big.NewInt(0), Y: new(big.Int).Sub(p, y0)})
+	}
+	others := []ref.Pt{ref.G(), ref.BaseMulFast(zvRandScalarI(rng))}
+	kinds := []string{"X", "Y", "Z", "X^2", "Y^2", "Z^2", "XY", "XZ", "YZ"}
+	n := 0
+	for _, P := range pts {
+		for _, kind := range kinds {
+			if P.X.Sign() == 0 && (kind == "X" || kind == "X^2" || kind == "XY" || kind == "XZ") {
+				continue
+			}
+			for _, v := range internals {
+				lam, ok := c15lambda(P, kind, v)
+				if !ok {
+					continue
+				}
+				rep := zvFromRef(P, lam)
+				d := hk.D{"point": zvPtHex(P), "intermediate": kind, "internal_value": fmt.Sprintf("%064x", v), "lambda": fmt.Sprintf("%064x", lam)}
+				for qi, Q := range others {
+					var dbl, s1, s2, s3 *SM2Point
+					pn, msg, _, _ := hk.Try(func() {
+						dbl = NewSM2Point().Double(rep)
+						s1 = NewSM2Point().Add(rep, zvFromRef(Q, big.NewInt(1)))
+						s2 = NewSM2Point().Add(zvFromRef(Q, big.NewInt(1)), rep)
+						s3 = NewSM2Point().Add(rep, zvFromRef(Q, lam))
+					})
+					if pn {
+						d["panic"] = msg
+						r.Violation("point-arithmetic-panics-on-unit-representative", d)
+						continue
+					}
+					chk := func(op string, got *SM2Point, want ref.Pt) {
+						if g, _ := zvToRef(got); !g.Eq(want) {
+							d["op"], d["other"], d["got"], d["want"] = op, zvPtHex(Q), zvPtHex(g), zvPtHex(want)
+							r.Violation("point-arithmetic-wrong-on-representative-with-unit-coordinate:"+op, d)
+						}
+					}
+					if qi == 0 {
+						chk("Double", dbl, P.Dbl())
+					}
+					chk("Add(rep,Q)", s1, P.Add(Q))
+					chk("Add(Q,rep)", s2, Q.Add(P))
+					chk("Add(rep,Q*)", s3, P.Add(Q))
+					n++
+				}
+			}
+		}
+	}
+	r.EvalN("representatives-with-unit-coordinates", n)
+}
